@@ -36,6 +36,7 @@ var funcs = []Func{
 	{"randomInt", funcRandomInt, []int{1}},
 	{"strContains", funcStrContains, []int{2}},
 	{"hasData", funcHasData, []int{0}},
+	{"range", funcRange, []int{1, 2, 3}},
 	{"bidiGlobalDir", funcBidiGlobalDir, []int{0}},
 	{"bidiDirAttr", funcBidiDirAttr, []int{0}},
 	{"bidiStartEdge", funcBidiStartEdge, []int{0}},
@@ -107,6 +108,21 @@ func funcRandomInt(js JSWriter, args []ast.Node) {
 
 func funcStrContains(js JSWriter, args []ast.Node) {
 	js.Write(args[0], ".indexOf(", args[1], ") != -1")
+}
+
+// funcRange writes range() used as a value (a {for} loop over range() does
+// not come here: it is translated to a JavaScript for loop).
+func funcRange(js JSWriter, args []ast.Node) {
+	js.Write("(function(a, b, c) { var r = []; for (var i = a; i < b; i += c) { r.push(i); } return r; })(")
+	switch len(args) {
+	case 1:
+		js.Write("0, ", args[0], ", 1")
+	case 2:
+		js.Write(args[0], ", ", args[1], ", 1")
+	default:
+		js.Write(args[0], ", ", args[1], ", ", args[2])
+	}
+	js.Write(")")
 }
 
 func funcHasData(js JSWriter, args []ast.Node) {
